@@ -261,7 +261,7 @@ class Interp(object):
                 ent[k] = ct if ct[0] != 'c' else C(ct[1] & 0xFF)
             else:
                 for i in range(w):
-                    ent[(k[0], k[1] + i)] = mk_byte(ct, i)
+                    ent[(k[0], k[1] + i)] = mem.mem_byte(ct, i, w)
         return ent
 
     # ------------------------------------------------------------------ pointers
